@@ -183,6 +183,8 @@ impl Project for FileBackedProject {
 
         // Do the analysis
         match analyze(&all_libraries) {
+            // Analysis of the files that did parse says nothing about the files that did not
+            Ok(_) if !all_diagnostics.is_empty() => Err(all_diagnostics),
             Ok(_) => Ok(()),
             Err(diagnostics) => {
                 // If we had an error, then add more diagnostics to any that we already had
